@@ -35,7 +35,7 @@ func genCase(t *rapid.T) qcase.Case {
 	var c qcase.Case
 	for attempt := 0; attempt < 4; attempt++ {
 		g := cy.Graph(t)
-		q := cy.Generate(t, genOptions())
+		q := cy.Generate(t, genOptionsFor(t))
 		c = qcase.Case{Graph: g, Query: q.Text, Params: q.Params, Features: q.Features}
 		model, err := xlate.Parse(c.Query)
 		if err != nil || qcase.ExcludedBy(c, model, findingOpen) == "" {
@@ -63,6 +63,17 @@ func findingOpen(slug string) bool {
 
 func genOptions() cy.Options {
 	o := cy.DefaultOptions()
+	return o
+}
+
+// genOptionsFor mixes in the special shapes the optimiser's lowerings look for (count fast paths, collect +
+// membership, quantifiers over relationships(p), exact ranges, …): they are ordinary read queries and C01 must
+// hold for them as well.
+func genOptionsFor(t *rapid.T) cy.Options {
+	o := genOptions()
+	if rapid.IntRange(0, 3).Draw(t, "special-shapes") == 0 {
+		o.Bias = "lowerings"
+	}
 	return o
 }
 
